@@ -171,7 +171,7 @@ pub fn parse_number(data: &[u8], index: &mut usize, negative: bool) -> Result<Pa
         if *index >= data.len() || !matches!(data[*index], b'.' | b'e' | b'E') {
             // view -0 as float number
             if negative {
-                return Ok(ParserNumber::Float(0.0));
+                return Ok(ParserNumber::Float(-0.0));
             }
             return Ok(ParserNumber::Unsigned(0));
         }
@@ -195,7 +195,7 @@ pub fn parse_number(data: &[u8], index: &mut usize, negative: bool) -> Result<Pa
                     while is_digit!(data, *index) {
                         *index += 1;
                     }
-                    return Ok(ParserNumber::Float(0.0));
+                    return Ok(ParserNumber::Float(if negative { -0.0 } else { 0.0 }));
                 }
 
                 // we calculate the first digit here for two reasons:
@@ -203,7 +203,7 @@ pub fn parse_number(data: &[u8], index: &mut usize, negative: bool) -> Result<Pa
                 // 2. we only need parse at most 16 digits in parse_number_fraction
                 // and it is friendly for simd
                 if !is_digit!(data, *index) {
-                    return Ok(ParserNumber::Float(0.0));
+                    return Ok(ParserNumber::Float(if negative { -0.0 } else { 0.0 }));
                 }
 
                 significant = digit!(data, *index);
@@ -236,7 +236,7 @@ pub fn parse_number(data: &[u8], index: &mut usize, negative: bool) -> Result<Pa
                 while is_digit!(data, *index) {
                     *index += 1;
                 }
-                return Ok(ParserNumber::Float(0.0));
+                return Ok(ParserNumber::Float(if negative { -0.0 } else { 0.0 }));
             }
             _ => unreachable!("unreachable branch in parse_number_unchecked"),
         }
